@@ -1,7 +1,11 @@
 (* The model of Model/Broadcast.v refines the lossy channel of Spec/Lossy.v on every sequential history. *)
 From Coq Require Import FMapPositive.
-Require Import V.Base.MachineInt V.Generated.GenConsts V.Model.Broadcast V.Spec.Lossy
-               V.Proofs.BroadcastMem V.Proofs.BroadcastInv.
+Require Import V.Base.MachineInt.
+Require Import V.Generated.GenConsts.
+Require Import V.Model.Broadcast.
+Require Import V.Spec.Lossy.
+Require Import V.Proofs.BroadcastMem.
+Require Import V.Proofs.BroadcastInv.
 From Coq Require Import ZifyBool.
 Open Scope Z_scope.
 
